@@ -215,6 +215,16 @@ class NpInt:
         self.v = v
 
 
+class SymStr(str):
+    """Value of an f-string: the ordinary text (symbolic fields rendered "?") plus `.parts`, the literal pieces and the
+    field values in order (a field with a conversion or format spec is "?"), so a contract can state *which* name was built."""
+
+    def __new__(cls, text, parts):
+        o = super().__new__(cls, text)
+        o.parts = list(parts)
+        return o
+
+
 class Opaque:
     """Result of an external call we only know by contract."""
 
@@ -1198,14 +1208,17 @@ class Frame:
 
     def e_JoinedStr(self, node):
         parts = []
+        raw = []          # the same pieces with symbolic integers kept as terms (SymStr.parts)
         for v in node.values:
             if isinstance(v, ast.Constant):
                 parts.append(str(v.value))
+                raw.append(str(v.value))
             else:
                 try:
                     val = self.eval(v.value)
                 except (Unsupported, PyRaise):
                     val = "?"
+                raw.append(val if (v.conversion == -1 and not v.format_spec) else "?")
                 if isinstance(val, (str, int)) and not v.format_spec:
                     parts.append(str(val))
                 elif isinstance(val, int) and v.format_spec is not None:
@@ -1216,7 +1229,7 @@ class Frame:
                         parts.append("?")
                 else:
                     parts.append("?")
-        return "".join(parts)
+        return SymStr("".join(parts), raw)
 
     def e_Tuple(self, node):
         out = []
